@@ -31,9 +31,14 @@ def classify(pid, violations, mech_counts):
     return new, listed, known_mechs
 
 
+# evidence/ and replays/ describe runs against /repo itself; a run pointed at a scratch copy (VERIF_REPO=<mutant tree>, the
+# seeding audits) writes its files under .work/other-tree/ instead, so that it can never overwrite them
+OUT_ROOT = core.ROOT if os.path.realpath(core.REPO) == os.path.realpath("/repo") else os.path.join(core.ROOT, ".work", "other-tree")
+
+
 def write_replays(pid, new):
     paths = []
-    rdir = os.path.join(core.ROOT, "replays", pid)
+    rdir = os.path.join(OUT_ROOT, "replays", pid)
     os.makedirs(rdir, exist_ok=True)
     seen = {}
     for v in new:
@@ -188,8 +193,8 @@ def main():
     }
     if hasattr(mod, "evidence_extra"):
         evidence["coverage"].update(mod.evidence_extra(counters, keys))
-    os.makedirs(os.path.join(core.ROOT, "evidence"), exist_ok=True)
-    with open(os.path.join(core.ROOT, "evidence", f"{pid}.json"), "w") as fh:
+    os.makedirs(os.path.join(OUT_ROOT, "evidence"), exist_ok=True)
+    with open(os.path.join(OUT_ROOT, "evidence", f"{pid}.json"), "w") as fh:
         json.dump(evidence, fh, indent=1, default=str)
     shutil.rmtree(work, ignore_errors=True)
 
